@@ -9,6 +9,7 @@ VERUS_UNITS = {
     "V-strslice": "v_strslice",
     "V-bind": "v_bind",
     "V-emit": "v_emit",
+    "V-truthy": "v_truthy",
     "V-objdefaults": "v_objdefaults",
     "V-index": "v_small:UNIT_INDEX",
     "V-prec": "v_small:UNIT_PREC",
@@ -16,7 +17,7 @@ VERUS_UNITS = {
 }
 
 PROPERTIES = {
-    "C01": {"verus": ["V-frame", "V-range", "V-index", "V-prec", "V-emit"], "kani": ["K-number"]},
+    "C01": {"verus": ["V-frame", "V-range", "V-index", "V-prec", "V-emit", "V-truthy"], "kani": ["K-number"]},
     "C05": {"verus": ["V-frame", "V-emit"], "kani": ["K-emit", "K-varint"]},
     "C06": {"verus": ["V-frame", "V-vmproto", "V-range", "V-lexer", "V-cursors", "V-adaptors", "V-strslice", "V-index", "V-debuginfo", "V-bind", "V-emit"], "kani": ["K-number", "K-emit", "K-strslice", "K-varint"]},
     "C02": {"verus": ["V-bind"], "kani": []},
